@@ -193,6 +193,23 @@ fn conv_proto_to_raw(src: &mut Src) -> Result<(String, usize), String> {
             p.cells[j].name = p.cells[i].name.clone();
         }
     }
+    // a layer's shapes may be spread over several entries of a layout's list (an equivalent spelling of the same
+    // content): one entry is split in two, the second half moved to the end of the list
+    if src.prob(1, 6) {
+        for c in p.cells.iter_mut() {
+            if let Some(l) = c.layout.as_mut() {
+                if l.shapes.len() >= 2 {
+                    let k = l.shapes.len() / 2;
+                    let mut second = l.shapes[k].clone();
+                    let nr = l.shapes[k].rectangles.len() / 2;
+                    second.rectangles = l.shapes[k].rectangles.split_off(nr);
+                    second.polygons = vec![];
+                    second.paths = std::mem::take(&mut l.shapes[k].paths);
+                    l.shapes.push(second);
+                }
+            }
+        }
+    }
     // a message written top-down (users before the cells they place), or in no order at all: whatever the
     // importer makes of it - the refusal it gives now, or an import - must be the same every time
     if n >= 2 {
@@ -280,6 +297,20 @@ fn conv_gds_to_raw(src: &mut Src) -> Result<(String, usize), String> {
             } else {
                 g.structs[si].elems.push(gds21::GdsElement::GdsStructRef(gds21::GdsStructRef { name, xy, ..Default::default() }));
             }
+        }
+    }
+    // ... or spells a reference in another case than any struct is named, where two or three structs differ in
+    // nothing but case (`Pad`, `PAD`, and a reference to `pad`)
+    if !g.structs.is_empty() && src.prob(1, 10) {
+        let base = g.structs.len();
+        for nm in ["IoPad", "IOPAD", "iopad"].iter().take(src.usize_in(2, 3)) {
+            let mut st = gds21::GdsStruct::new(*nm);
+            st.elems.push(gds21::GdsElement::GdsBoundary(gds21::GdsBoundary { layer: 3, datatype: 0, xy: gds21::GdsPoint::vec(&[(0, 0), (5, 0), (5, 5), (0, 5), (0, 0)]), ..Default::default() }));
+            g.structs.push(st);
+        }
+        let si = src.index(base);
+        for k in 0..src.usize_in(1, 3) {
+            g.structs[si].elems.push(gds21::GdsElement::GdsStructRef(gds21::GdsStructRef { name: "ioPAD".into(), xy: gds21::GdsPoint::new(40 * k as i32, 9), ..Default::default() }));
         }
     }
     // ... or its references form a ring (an edit gone wrong): a chain of three or four structs closed on itself,
